@@ -418,6 +418,16 @@ Variable delp : bool.
 (* a contextual rule that names a lookup block without rules: the block has no lookup and nothing is
    applied.  false on the unrepaired tree, where the compiler panics (modelled as a rejected file). *)
 Variable eskip : bool.
+(* `lookup NAME;` in a feature closes the lookup that is being built, so that the rules after it start
+   a new one (the specification's "lookups in declaration order"; feaLib does this).  false in /repo:
+   the rules before and after the reference share one lookup (known finding
+   lookup-reference-does-not-close-running-lookup). *)
+Variable refc : bool.
+(* a named lookup block that holds multiple-substitution AND ligature rules (after single substitutions)
+   is rejected, as any other mix of rule types is.  false in /repo: validation compares every rule with
+   the block's FIRST rule only, the block is split into two lookups and the name denotes the last one
+   (known finding mixed-rule-types-in-named-block-split-lookup). *)
+Variable mixs : bool.
 
 Definition named_gsub (st : estate) (names : list N) : option (list nat) :=
   fold_right (fun n acc =>
@@ -619,12 +629,15 @@ Fixpoint block_ok (kind : option N) (flag_after_rule : bool) (l : list lstmt) : 
   | LClassDef _ _ :: t => block_ok kind flag_after_rule t
   end.
 
+Definition block_has (k : N) (l : list lstmt) : bool :=
+  existsb (fun s => match s with LRule r => N.eqb (rule_kind r) k | _ => false end) l.
+
 (* resolve_lookup_block = start_lookup_block; statements; end_lookup_block *)
 Definition elab_block (st : estate) (name : N) (body : list lstmt) : option estate :=
   match assoc name (es_named st) with
   | Some _ => None
   | None =>
-      if negb (block_ok None false body) then None else
+      if negb (block_ok None false body) || (mixs && block_has 2 body && block_has 4 body) then None else
       let '(st1, fin) := finish_current st in
       let st2 := add_to_feature st1 fin in
       let st3 := match es_active st2 with None => set_flags st2 flag0 | Some _ => st2 end in
@@ -662,7 +675,11 @@ Definition elab_fstmt (st : estate) (s : fstmt) : option estate :=
       Some (set_script_language st (s, t) excl)
   | FLookupRef n =>
       match assoc n (es_named st) with
-      | Some i => Some (add_to_feature st (Some i))
+      | Some i =>
+          if refc then
+            let '(st1, fin) := finish_current st in
+            Some (add_to_feature (add_to_feature st1 fin) (Some i))
+          else Some (add_to_feature st (Some i))
       | None => None
       end
   | FLookupBlock n body => elab_block st n body
@@ -747,11 +764,13 @@ Definition elab_gen (p : prog) : option eprog :=
 
 End Rules.
 
-(* the walk as fea-rs does it after the repairs of 2026-09 (numeric ranges per `incl`) *)
-Definition elab (incl : bool) (gm : list str) (p : prog) : option eprog := elab_gen incl gm true true p.
+(* the walk as fea-rs in /repo does it (numeric ranges per `incl`; by-NULL and empty-lookup repairs applied;
+   the two known findings refc / mixs not) *)
+Definition elab (incl : bool) (gm : list str) (p : prog) : option eprog := elab_gen incl gm true true false false p.
 (* the walk under the specification's reading: ranges include their end, a named block is one lookup,
-   an empty named lookup does nothing *)
-Definition elab_spec (gm : list str) (p : prog) : option eprog := elab_gen true gm true true p.
+   an empty named lookup does nothing, a lookup reference closes the running lookup, a named block mixing
+   multiple-substitution and ligature rules is rejected *)
+Definition elab_spec (gm : list str) (p : prog) : option eprog := elab_gen true gm true true true true p.
 
 (* lookup indices of a feature entry, per table, increasing and without repeats (dedupe_lookups) *)
 Definition gsub_ids (l : list lid) : list nat :=
